@@ -308,6 +308,8 @@ func describeNondets(nv []NondetVal) string {
 	var parts []string
 	for _, n := range nv {
 		switch n.Kind {
+		case "env":
+			continue
 		case "str":
 			parts = append(parts, fmt.Sprintf("%s=%q", n.Name, string(n.Str)))
 		default:
@@ -319,7 +321,7 @@ func describeNondets(nv []NondetVal) string {
 
 func describeViolation(run string, v *Violation) string {
 	s := "run=" + run + " site=" + v.Site + " " + describeNondets(v.Nondets)
-	if len(v.Notes) > 0 {
+	if len(v.Notes) > 0 && v.Site != "nodeadlock" {
 		s += " notes=" + strings.Join(v.Notes, ";")
 	}
 	return s
